@@ -58,9 +58,32 @@ theorem clustal_name_nospace (p : Bytes) (c : Cols) (name : Bytes) (h : clustalC
   rw [← hs, h2]
   exact nameSlice_nospace p c.nameStart c0 hc0 (by simpa using hP)
 
-/-- names without white space or NUL; text rows of graphic characters; a started block is not empty -/
+/-- the name field of an alignment line is not empty -/
+theorem name_ne_gen (p : Bytes) (ns nl : Nat) (name : Bytes) (h2 : nl = scanTo isSpace p (ns + 1) - ns)
+    (hs : slice p ns nl = some name) : name ≠ [] := by
+  have hge : ns + 1 ≤ scanTo isSpace p (ns + 1) := scanTo_ge _ _ _
+  unfold slice at hs
+  by_cases hb : ns + nl ≤ p.length
+  · simp only [hb, if_true, Option.some.injEq] at hs
+    intro h0
+    have hl : ((p.drop ns).take nl).length = 0 := by rw [hs, h0]; rfl
+    rw [List.length_take, List.length_drop] at hl
+    omega
+  · simp [hb] at hs
+
+theorem cstr_of_no0 (name : Bytes) (h : name.contains 0 = false) : cstr name = name := by
+  unfold cstr
+  apply takeWhile_all
+  intro a ha
+  have : a ≠ 0 := by
+    intro e; subst e
+    have : name.contains 0 = true := by simpa using ha
+    rw [h] at this; cases this
+  simpa using this
+
+/-- non-empty names without white space or NUL; text rows of graphic characters; a started block is not empty -/
 structure BlkNdInv (cfg : Cfg) (st : BlkSt) : Prop where
-  names : ∀ nm ∈ st.names, ∀ x ∈ nm, isSpace x = false ∧ x ≠ 0
+  names : ∀ nm ∈ st.names, (nm ≠ [] ∧ ∀ x ∈ nm, isSpace x = false ∧ x ≠ 0)
   rows : cfg.digital = false → ∀ r, some r ∈ st.rows → r.all isGraph = true
   bsl : st.phase = .inblock ∨ st.phase = .between → 1 ≤ st.bsl
 
@@ -71,28 +94,47 @@ theorem cstr_mem (b : Bytes) (x : UInt8) (h : x ∈ cstr b) : x ∈ b ∧ x ≠ 
   simpa using this
 
 theorem blkName_nd (cfg : Cfg) (inc : Bool) (st st' : BlkSt) (name : Bytes) (h : blkName inc st name = .inl st')
-    (hn : ∀ x ∈ name, isSpace x = false) (hi : BlkNdInv cfg st) :
-    (∀ nm ∈ st'.names, ∀ x ∈ nm, isSpace x = false ∧ x ≠ 0) ∧
+    (hn : ∀ x ∈ name, isSpace x = false) (hne : name ≠ []) (hi : BlkNdInv cfg st) :
+    (∀ nm ∈ st'.names, (nm ≠ [] ∧ ∀ x ∈ nm, isSpace x = false ∧ x ≠ 0)) ∧
     (∀ r, some r ∈ st'.rows → some r ∈ st.rows) ∧ st'.phase = st.phase ∧ st'.bsl = st.bsl ∧ st'.alen = st.alen := by
   unfold blkName at h
-  simp only at h
-  repeat' split at h
-  all_goals first
-    | (injection h with h; subst h; exact ⟨hi.names, fun r hr => hr, rfl, rfl, rfl⟩)
-    | (injection h with h; subst h
-       refine ⟨?_, ?_, rfl, rfl, rfl⟩
-       · intro nm hnm x hx
-         rcases List.mem_append.mp hnm with h1 | h1
-         · exact hi.names nm h1 x hx
-         · simp at h1; subst h1
-           exact ⟨hn x (cstr_mem name x hx).1, (cstr_mem name x hx).2⟩
-       · intro r hr
-         first
-           | exact hr
-           | (rcases List.mem_append.mp hr with h1 | h1
-              · exact h1
-              · simp at h1))
-    | (simp at h)
+  split at h
+  · cases h
+  rename_i hcond
+  unfold blkNameCore at h
+  by_cases hb : (st.nblocks == 0) = true
+  · have hz : name.contains 0 = false := by
+      cases hx : name.contains 0 with
+      | false => rfl
+      | true => exact absurd (by rw [hb, hx]; rfl) hcond
+    have hcs := cstr_of_no0 name hz
+    simp only [hb, if_true] at h
+    split at h
+    · simp at h
+    · injection h with h; subst h
+      refine ⟨?_, ?_, rfl, rfl, rfl⟩
+      · intro nm hnm
+        rcases List.mem_append.mp hnm with h1 | h1
+        · exact hi.names nm h1
+        · simp at h1; subst h1
+          rw [hcs]
+          refine ⟨hne, fun x hx => ⟨hn x hx, ?_⟩⟩
+          intro e; subst e
+          have : name.contains 0 = true := by simpa using hx
+          rw [hz] at this; cases this
+      · intro r hr
+        simp only at hr
+        split at hr
+        · rcases List.mem_append.mp hr with h1 | h1
+          · exact h1
+          · simp at h1
+        · exact hr
+  · have hb' : (st.nblocks == 0) = false := by simpa using hb
+    simp only [hb', Bool.false_eq_true, if_false] at h
+    repeat' split at h
+    all_goals first
+      | (injection h with h; subst h; exact ⟨hi.names, fun r hr => hr, rfl, rfl, rfl⟩)
+      | (simp at h)
 
 theorem mem_set_some (l : List (Option Bytes)) (i : Nat) (v : Option Bytes) (r : Bytes) (h : some r ∈ l.set i v) :
     some r ∈ l ∨ v = some r := by
@@ -152,7 +194,8 @@ theorem clustalSeqLine_nd (cfg : Cfg) (hg : cfg.digital = false → cfg.inmap.em
               { names := by show ∀ nm ∈ (setBlock st c).names, _; rw [hsb.1]; exact hi.names
                 rows := by show _ → ∀ r, some r ∈ (setBlock st c).rows → _; rw [hsb.2]; exact hi.rows
                 bsl := fun _ => hsl }
-            obtain ⟨n1, n2, n3, n4, _⟩ := blkName_nd cfg true _ st1 name hnm (clustal_name_nospace p c name hc hname) hi1
+            obtain ⟨n1, n2, n3, n4, _⟩ := blkName_nd cfg true _ st1 name hnm (clustal_name_nospace p c name hc hname)
+              (name_ne_gen p _ _ name (clustalCols_name p c hc).2 hname) hi1
             obtain ⟨a1, a2, a3, a4⟩ := blkAppend_nd cfg hg st1 st' seq h (fun hd r hr => hi1.rows hd r (n2 r hr))
             exact { names := by rw [a1]; exact n1, rows := a2
                     bsl := fun _ => by rw [a4, n4]; exact hsl }
@@ -170,7 +213,7 @@ theorem allSome_mem : ∀ (l : List (Option Bytes)) (rows : List Bytes), allSome
     · exact List.mem_cons_of_mem _ (allSome_mem rest rs h1 r hr)
 
 def CluNdGood (cfg : Cfg) (r : Res Msa) : Prop :=
-  ∀ m, r = .ok m → (∀ nm ∈ m.names, ∀ x ∈ nm, isSpace x = false ∧ x ≠ 0) ∧ m.digital = cfg.digital ∧ m.kp = cfg.kp ∧ 1 ≤ m.alen ∧
+  ∀ m, r = .ok m → (∀ nm ∈ m.names, (nm ≠ [] ∧ ∀ x ∈ nm, isSpace x = false ∧ x ≠ 0)) ∧ m.digital = cfg.digital ∧ m.kp = cfg.kp ∧ 1 ≤ m.alen ∧
     (cfg.digital = false → ∀ r ∈ m.aseq, r.all isGraph = true)
 
 theorem blkNdInv_idx0 (cfg : Cfg) (st : BlkSt) (hi : BlkNdInv cfg st) (a n : Nat) :
@@ -270,20 +313,15 @@ def cluTextGraphB : Bool := (clustalInmap none).emits isGraph
 
 theorem cluTextGraphB_true : cluTextGraphB = true := by decide +kernel
 
-theorem cluName_ok (m : Msa) (hn : ∀ nm ∈ m.names, ∀ x ∈ nm, isSpace x = false ∧ x ≠ 0) (hne : cluNamesNeB m = true) :
+theorem cluName_ok (m : Msa) (hn : ∀ nm ∈ m.names, (nm ≠ [] ∧ ∀ x ∈ nm, isSpace x = false ∧ x ≠ 0)) :
     ∀ i, i < m.nseq → cluNameOk (m.names.getD i []) := by
   intro i hi
-  have hmem := rd_getD_mem m.names i hi
-  refine ⟨?_, hn _ hmem⟩
-  have := (List.all_eq_true.mp hne) _ hmem
-  intro h0
-  rw [h0] at this
-  simp at this
+  exact hn _ (rd_getD_mem m.names i hi)
 
-/-- **what the Clustal reader returns in text mode can be written and read back**, given that no name is empty and no row
+/-- **what the Clustal reader returns in text mode can be written and read back**, given that no row
     after the first looks like a consensus line -/
 theorem clustalRead_domain_text (like : Bool) (lines : List Bytes) (m : Msa) (rest : List Bytes)
-    (h : clustalRead like (clustalCfg none) lines = (.ok m, rest)) (hne : cluNamesNeB m = true) (hnc : cluNotConsTextB m = true) :
+    (h : clustalRead like (clustalCfg none) lines = (.ok m, rest)) (hnc : cluNotConsTextB m = true) :
     ClustalTextWritable m := by
   have hg := clustalRead_good like (clustalCfg none) ⟨by decide +kernel, by decide +kernel⟩ lines
   have hn := clustalRead_nd like (clustalCfg none) (fun _ => cluTextGraphB_true) lines
@@ -295,7 +333,7 @@ theorem clustalRead_domain_text (like : Bool) (lines : List Bytes) (m : Msa) (re
   simp only [Bool.false_eq_true, if_false] at hrows
   exact
     { dig := hdig', n1 := h1, alen1 := halen
-      name_ok := cluName_ok m hnm hne
+      name_ok := cluName_ok m hnm
       row_ok := fun i hi => by
         have hmem := rd_getD_mem m.aseq i (by rw [hrows.1]; exact hi)
         exact ⟨(hrows.2 _ hmem).1, fun t ht => (List.all_eq_true.mp (hgr rfl _ hmem)) t ht⟩
@@ -309,7 +347,7 @@ theorem clustalRead_domain_text (like : Bool) (lines : List Bytes) (m : Msa) (re
 
 /-- … and in digital mode -/
 theorem clustalRead_domain_digital (like : Bool) (a : Abc) (hv : (clustalCfg (some a)).valid) (lines : List Bytes) (m : Msa)
-    (rest : List Bytes) (h : clustalRead like (clustalCfg (some a)) lines = (.ok m, rest)) (hne : cluNamesNeB m = true)
+    (rest : List Bytes) (h : clustalRead like (clustalCfg (some a)) lines = (.ok m, rest))
     (hnc : cluNotConsDigB a m = true) : ClustalDigitalWritable a m := by
   have hg := clustalRead_good like (clustalCfg (some a)) hv lines
   have hn := clustalRead_nd like (clustalCfg (some a)) (fun hd => by simp [clustalCfg, Cfg.digital] at hd) lines
@@ -322,7 +360,7 @@ theorem clustalRead_domain_digital (like : Bool) (a : Abc) (hv : (clustalCfg (so
   simp only [if_true] at hrows
   exact
     { dig := hdig', n1 := h1, alen1 := halen
-      name_ok := cluName_ok m hnm hne
+      name_ok := cluName_ok m hnm
       row_ok := fun i hi => by
         rw [← hkp']
         exact hrows.2 _ (rd_getD_mem m.ax i (by rw [hrows.1]; exact hi))
